@@ -93,12 +93,18 @@ def build_classes(prog, rt):
             ann['additional_data'] = object
 
         def make(nid=nid, mode=n['mode']):
+            # the engine promises a new node object per invocation (node.py get_instance); like a user node that
+            # keeps scratch state on self, the generated body lets a reused instance show in its value
             if mode == 'coro':
                 async def process(self, **kwargs):  # noqa: ANN001
-                    return await rt.body_async(nid, kwargs)
+                    reused = self.__dict__.get('_verif_used', False)
+                    self.__dict__['_verif_used'] = True
+                    return await rt.body_async(nid, kwargs, reused)
             else:
                 def process(self, **kwargs):  # noqa: ANN001
-                    return rt.body_sync(nid, kwargs)
+                    reused = self.__dict__.get('_verif_used', False)
+                    self.__dict__['_verif_used'] = True
+                    return rt.body_sync(nid, kwargs, reused)
 
             def get_default(self, **kwargs):  # noqa: ANN001
                 return rt.default(nid, kwargs)
